@@ -27,5 +27,7 @@ func init() {
 		rules.ListEvalSiblingConditions(p, r, "C03-e")
 		rules.CacheWriteDiscipline(p, r, "C03-cache-store")
 		rules.CacheKeyShape(p, r, "C03-cache-key")
+		rules.SeenSetKeyCompleteness(p, r, "C03-part-seen")
+		rules.UnconditionalIPBlockContribution(p, r, "C03-part-all")
 	})
 }
